@@ -372,10 +372,16 @@ pub fn minimise(check: &dyn Check, scn: &Value, rule: &str, max_execs: usize) ->
     let mut cur = scn.clone();
     let mut execs = 0usize;
     let mut scratch = Stats::new();
+    // bounded in executions and in wall clock (scenarios of tens of MiB take seconds per execution)
+    let max_execs = std::env::var("VERIF_SHRINK_EXECS").ok().and_then(|x| x.parse().ok()).unwrap_or(max_execs);
+    let t0 = Instant::now();
     'outer: loop {
+        if execs >= max_execs || t0.elapsed() > Duration::from_secs(90) {
+            break;
+        }
         let cands = guarded(&cur, 0, || check.shrink(&cur));
         for cand in cands {
-            if execs >= max_execs {
+            if execs >= max_execs || t0.elapsed() > Duration::from_secs(90) {
                 break 'outer;
             }
             if cand == cur {
